@@ -123,7 +123,9 @@ def generate(rng, tier, index):
         ex.apply(["Q"])
         ex.apply(["X", "mark_synced"])
         if ex.synced_ok:
-            _gen_main(rng, ex, rng.randint(1, 7), style, random_mix(rng))
+            mix = random_mix(rng)
+            mix["swap"] = 1         # two files exchange names through a temporary name
+            _gen_main(rng, ex, rng.randint(1, 7), style, mix)
     except Violation as e:
         case["plan"] = ex.plan
         return {"case": case, "violation": e.as_dict(), "stats": base_stats(ex, style, fp)}
@@ -132,7 +134,7 @@ def generate(rng, tier, index):
 
 
 def _gen_main(rng, ex, nops, style, mix):
-    from sim.plan import propose
+    from sim.plan import propose, expand_op
     w = ex.world
     done = tries = 0
     while done < nops and tries < nops * 6:
@@ -140,7 +142,18 @@ def _gen_main(rng, ex, nops, style, mix):
         op = propose(rng, ex.model, mix, ex.new_payload)
         if op is None:
             continue
-        if not _apply_main(ex, ["U", ex.origin] + list(op)):
+        steps = expand_op(op, ex.model)
+        if not steps:
+            continue
+        for one in steps[:-1]:
+            # (a name swap: the three renames follow each other with at most one engine step in between)
+            if not _apply_main(ex, ["U", ex.origin] + list(one)):
+                break
+            if style == "eager":
+                ex.apply(["Q"])
+            elif style != "bursty" and rng.random() < 0.5:
+                ex.apply(["S", rng.randrange(3)])
+        if not _apply_main(ex, ["U", ex.origin] + list(steps[-1])):
             continue
         done += 1
         if style == "eager":
